@@ -262,7 +262,8 @@ def run(ctx, rep):
                         # subtraction of the two sizes computed on this arm
                         subs_ = [st_["rv"] for bj in sorted(region) for st_ in b.blocks[bj]["s"] if st_["rv"]["r"] == "bin" and st_["rv"]["op"].startswith("Sub")
                                  and {(_root_place(b, st_["rv"]["a"]) or {}).get("l"), (_root_place(b, st_["rv"]["b"]) or {}).get("l")} == {A["l"], B["l"]}]
-                        if len(subs_) == 1 and any(o.startswith("Sub") for o in backward_slice(b, arg)["ops"]):
+                        aops = {o.replace("WithOverflow", "") for o in backward_slice(b, arg)["ops"]} - {"Eq", "Ne", "Lt", "Le", "Gt", "Ge"}
+                        if len(subs_) == 1 and aops == {"Sub"}:       # nothing but that subtraction (and conversions) feeds the argument
                             src = subs_[0]
                     if src is None:
                         good = False
@@ -317,6 +318,22 @@ def run(ctx, rep):
             vals += [op_int(s_["rv"]["ops"][0]) for bl in x.blocks for s_ in bl["s"] if s_["rv"]["r"] == "agg" and s_["rv"].get("var") == "Ok" and s_["rv"]["ops"] and op_int(s_["rv"]["ops"][0]) is not None]
             nflag += 1
             rep.check("C10.flag", "%s reports %s" % (hname, "true (rebuilt)" if want else "false (not rebuilt)"), vals == [want], loc_of(x), str(vals), "%s reports %s" % (hname, vals))
+    # or update_file itself picks the flag after the helper returned: `{ write_in_place(..)?; false }` / `{ rebuild_file(..)?; true }`
+    if nflag == 0:
+        pff = ok.path_facts(b)
+        for bi, bl in enumerate(b.blocks):
+            f = pff.get(bi, TOP)
+            if f is TOP:
+                continue
+            inpl, rebu = fact_match(f, "call-ok", r"update_file::write_in_place$"), fact_match(f, "call-ok", r"update_file::rebuild_file$")
+            if inpl == rebu:
+                continue
+            for s_ in bl["s"]:
+                k = (s_["rv"].get("o") or {}).get("k") if s_["rv"]["r"] == "use" and isinstance(s_["rv"].get("o"), dict) else None
+                if k and k.get("ty") == "bool" and not s_["d"]["p"]:
+                    nflag += 1
+                    rep.check("C10.flag", "%s" % ("in-place write reports false (not rebuilt)" if inpl else "rebuild reports true"), k["v"] == (0 if inpl else 1), b.loc(s_["sp"]), "",
+                              "after %s the update reports %s" % ("an in-place write" if inpl else "a rebuild", bool(k["v"])))
     rep.floor("C10.flag", "flagged results", nflag, 2)
 
     # ---- C10.copy --------------------------------------------------------------------------------------------
